@@ -108,7 +108,9 @@ def _split_params(s):
     return out
 
 
-C_WRAPPER_RE = re.compile(r"\nstatic inline (?P<ret>[^\n(]*?)(?P<name>\w+)\((?P<params>[^\n]*)\)\s*\{\n(?P<body>.*?)\n\}\n", re.S)
+# (lookarounds: the separators are not consumed, so wrappers that follow each other without a blank line are all found;
+#  nothing else about the body's text - local names, temporaries, statement layout - is assumed)
+C_WRAPPER_RE = re.compile(r"(?<=\n)static inline (?P<ret>[^\n(]*?)(?P<name>\w+)\((?P<params>[^\n]*)\)\s*\{(?P<body>.*?)\n\}(?=\n)", re.S)
 CALL_RE = re.compile(r"(?:->|\.)(\w+)\)->(\w+)\(")
 
 
@@ -136,12 +138,11 @@ def parse_wrappers_c(text):
             continue
         c = CALL_RE.search(body)
         w["calls"] = (c.group(1), c.group(2)) if c else None
-        w["assigns"] = re.findall(r"__ret\.(\w+) =", body)
         out.append(w)
     return out
 
 
-CPP_MEMBER_RE = re.compile(r"\n    inline (?P<ret>[^\n]*?)\s(?P<name>\w+)\((?P<params>[^\n]*)\) (?P<qual>const |&& )?noexcept \{\n(?P<body>.*?)\n    \}\n", re.S)
+CPP_MEMBER_RE = re.compile(r"(?<=\n)    inline (?P<ret>[^\n]*?)\s(?P<name>\w+)\((?P<params>[^\n]*)\)\s*(?P<qual>const |&& )?noexcept\s*\{(?P<body>.*?)\n    \}(?=\n)", re.S)
 
 
 def parse_wrappers_cpp(text, model):
@@ -162,7 +163,7 @@ def parse_wrappers_cpp(text, model):
                 c = re.search(r"\(this->(\w+)\)->(\w+)\(", body)
                 ws.append({"name": w.group("name"), "ret": w.group("ret").strip(), "params": _split_params(w.group("params")),
                            "qual": (w.group("qual") or "").strip(), "body": body, "calls": (c.group(1), c.group(2)) if c else None,
-                           "assigns": re.findall(r"__ret\.(\w+) =", body), "generic": False, "subject": fam,
+                           "generic": False, "subject": fam,
                            "self": "value" if (w.group("qual") or "").strip() == "&&" else "ptr"})
         out[fam] = ws
     return out
